@@ -37,6 +37,10 @@ fn compare_values_for_range(a: &Value, b: &Value) -> Option<CmpOrdering> {
         (Value::Float64(a), Value::Float64(b)) => a.partial_cmp(b),
         (Value::String(a), Value::String(b)) => Some(a.cmp(b)),
         (Value::Bool(a), Value::Bool(b)) => Some(a.cmp(b)),
+        // Integers and floats compare numerically, as in the filter evaluator
+        // and the zone maps
+        (Value::Int64(a), Value::Float64(b)) => (*a as f64).partial_cmp(b),
+        (Value::Float64(a), Value::Int64(b)) => a.partial_cmp(&(*b as f64)),
         _ => None,
     }
 }
